@@ -582,7 +582,7 @@ def strip(result, readback=True):
     implementation), identifies the markers of unreadable values, and with readback=False also drops the
     BEFORE{...} AFTER{...} structural read-back (kept: status, mapping, block table, heads, raw cells, symbol table)."""
     line = re.sub(r' iso=[01]', '', result)
-    line = re.sub(r' a?wf=[01]', '', line)
+    line = re.sub(r' (a?wf|wfq|ns)=[01]', '', line)
     line = re.sub(r' E<[^>]*>', '', line)
     line = re.sub(r' U<[01]>', '', line)
     line = MARKER_RE.sub('<?>', line)
@@ -733,8 +733,12 @@ def access_wf_stats(cases, impl, model):
     Props/C07Reach.lean proves it for every reachable store; here it is observed on the stores of the generated op
     sequences, which the suite compares with the real heap cell by cell (raw cells, block table, heads).
     Returns (cases judged, flags seen, flags = 1, bad) where bad = [(id, script, why)] for the scripts that use the
-    store as a host may (streams WELLFORMED): a flag 0, or a model store that is not the implementation's heap."""
+    store as a host may (streams WELLFORMED): a flag 0, or a model store that is not the implementation's heap.
+    Next to it ` wfq=` (the invariant WFq of Props/C07ReachV.lean on the same store) and, on opt records, ` ns=` (the side
+    condition noStale of the optimize step): counted in access_wf_stats.extra = {'wfq0': n, 'ns0': n, 'setval': scripts with an
+    in-place update}; wfq=0 / ns=0 are outside the hypotheses of C07_reachable_no_panic_mut, not failures."""
     judged, flags, good, bad = 0, 0, 0, []
+    access_wf_stats.extra = {'wfq0': 0, 'ns0': 0, 'setval': 0, 'wfq': 0}
     for c in cases:
         if len(c) > 2 and c[2] == 'run':
             continue
@@ -747,6 +751,10 @@ def access_wf_stats(cases, impl, model):
         judged += 1
         flags += len(fl)
         good += fl.count('1')
+        access_wf_stats.extra['wfq'] += len(re.findall(r' wfq=[01]', b))
+        access_wf_stats.extra['wfq0'] += len(re.findall(r' wfq=0', b))
+        access_wf_stats.extra['ns0'] += len(re.findall(r' ns=0', b))
+        access_wf_stats.extra['setval'] += 1 if 'setval' in c[2] else 0
         if '0' in fl:
             bad.append((c[1], c[2], 'awf=0'))
         elif strip(a, False) != strip(b, False):
@@ -792,6 +800,7 @@ def main():
         print('seed %d: accessor well-formedness (Heap.WF of the heap view, C07Reach): %d scripts judged, %d flags, %d true, %d bad' % (seed, aj, af, ag, len(ab)))
         for x in ab[:5]:
             print('ACCESS-WF', x)
+        print('seed %d: WFq / noStale (C07ReachV): %s' % (seed, access_wf_stats.extra))
         total += len(cases)
         all_dis += dis; all_orc += orc; all_iso += iso
         print('seed %d: %d cases, %d model disagreements, %d oracle failures, %d iso/oracle mismatches' % (seed, len(cases), len(dis), len(orc), len(iso)))
@@ -842,8 +851,11 @@ def main():
         model = vlib.run_model(loads, 'optsnap')
         sd = 0
         aw = [0, 0]
+        wq = {'wfq=1': 0, 'wfq=0': 0, 'ns=1': 0, 'ns=0': 0}
         for c in loads:
             got = model.get(c[1], 'MISSING')
+            for k in re.findall(r' ((?:wfq|ns)=[01])', got):
+                wq[k] += 1
             for fl in re.findall(r' awf=([01])', got):
                 aw[int(fl)] += 1
                 if fl == '0':
@@ -858,7 +870,7 @@ def main():
             iso = re.search(r' iso=([01])', got)
             if iso and iso.group(1) != '1':
                 print('SNAP-ISO0', c[1])
-        print('SNAP: %d program states replayed on the model, %d disagreements; Heap.WF of the loaded real heaps and of their compactions: %d true, %d false' % (len(loads) // 2, sd, aw[1], aw[0]))
+        print('SNAP: %d program states replayed on the model, %d disagreements; Heap.WF of the loaded real heaps and of their compactions: %d true, %d false; WFq / noStale on them: %s' % (len(loads) // 2, sd, aw[1], aw[0], wq))
 
 
 if __name__ == '__main__':
